@@ -27,7 +27,7 @@ ASSUMPTIONS = [
     "table oracles are written from the documented meaning of each option, independent of nanoemoji's code",
 ]
 
-PAIR_GM = "zz_glyphmap"  # a second glyph-map generator (own glyph names) for part A
+PAIR_GM = "proj.write_glyphmap"  # a second glyph-map generator (own glyph names) for part A; same BASENAME as the default one on purpose
 
 PAIR_OPTS = [
     "glyphmap_generator", "glyphmap_generator",
@@ -87,7 +87,8 @@ def gen_pair(seed, idx):
     ops = [{"op": "write", "path": p, "content": c} for p, c, _ in srcs]
     gm_env = None
     if "glyphmap_generator" in differing:
-        ops.append({"op": "write", "path": "$SIDE/gm/%s.py" % PAIR_GM, "content": "text:" + MY_GLYPHMAP, "keep": True})
+        ops.append({"op": "write", "path": "$SIDE/gm/proj/__init__.py", "content": "text:", "keep": True})
+        ops.append({"op": "write", "path": "$SIDE/gm/%s.py" % PAIR_GM.replace(".", "/"), "content": "text:" + MY_GLYPHMAP, "keep": True})
         gm_env = {"PYTHONPATH": "$SIDE/gm"}
     for c in cfgs:
         ops.append({"op": "write", "path": c["toml"], "content": "text:" + gen.toml_config(c["opts"], c["srcs"]), "keep": True})
